@@ -10,6 +10,8 @@
 (***************************************************************************)
 EXTENDS Automata, Json, IOUtils, TLC, TLCExt
 
+TP == INSTANCE TickPacing WITH s <- 0, lastSent <- 0    \* only its operators (TickStep) are used
+
 CONSTANT Check
 CONSTANT Primary
 Chk(p) == p \in Check
@@ -25,7 +27,7 @@ VARIABLES l,
           lastNi      \* last (r, Ni) pair of a band event, for monotonicity
 vars == << l, tbl, mT, sT, full, lastFrame, lastHello, lastNi >>
 
-NoFull == [ms |-> 0, live |-> {}]
+NoFull == [ms |-> 0, live |-> {}, es |-> 0, hto |-> 0 - 1, bto |-> 0 - 1, lasttx |-> 0]
 
 TraceInit ==
   /\ l = 1 /\ tbl = {} /\ mT = << 0, 0, 0 >> /\ sT = << 0, 0, 0, 0 >>
@@ -46,7 +48,27 @@ TableConsistent(ev) ==
   /\ (ev.empty = 1) <=> (L = {})
   /\ (ev.allc = 1) <=> AllComplete(L)
 
-FullOf(ev) == [ms |-> ev.ms, live |-> LiveSet(ev)]
+Unset == 0 - 1000000000
+FullOf(ev) == [ms |-> ev.ms, live |-> LiveSet(ev), es |-> ev.es,
+               hto |-> IF ev.hto = Unset THEN 0 - 1 ELSE ev.now + ev.hto,      \* absolute deadlines (ms), -1 = unset
+               bto |-> IF ev.bto = Unset THEN 0 - 1 ELSE ev.now + ev.bto,
+               lasttx |-> ev.lasttx]
+
+(* relative-clock mapping onto the state of TickPacing *)
+ClsHto(abs, now) == IF abs < 0 THEN "unset" ELSE IF abs <= now THEN "due" ELSE IF abs - now < 1000 THEN "soon" ELSE "late"
+ClsBto(abs, now) == IF abs < 0 THEN "unset" ELSE IF abs <= now THEN "due" ELSE "pending"
+ClsTx(last, now) == IF last = 0 THEN "never" ELSE IF now - last < 1000 THEN "lt" ELSE "ge"
+ClsTbl(L) == IF L = {} THEN "empty" ELSE IF AllComplete(L) THEN "allc" ELSE "inc"
+AbsOf(f, L, now) == [es |-> f.es, tbl |-> ClsTbl(L), hto |-> ClsHto(f.hto, now), bto |-> ClsBto(f.bto, now), tx |-> ClsTx(f.lasttx, now)]
+
+(* refinement: a recorded tick of the real automata_tick is a TickPacing!TickStep under the mapping. *)
+(* The table is swept (expiry, inactivity) before the enumeration block looks at it, so the table    *)
+(* class of the pre-state is the one logged after the tick.                                          *)
+TickRefines(ev) ==
+  LET pre == AbsOf(full, LiveSet(ev), ev.now)
+      post == AbsOf(FullOf(ev), LiveSet(ev), ev.now)
+  IN /\ Len(ev.hellos) <= 1
+     /\ \E r \in TP!TickStep(pre) : r.post = post /\ r.sent = (Len(ev.hellos) = 1)
 
 (* C12: periodic Hellos.  Every callback logged its virtual time, whether it ran inside the   *)
 (* tick, and an independent scan of the real table.                                          *)
@@ -124,7 +146,7 @@ TTick ==
      /\ Chk("C14") => /\ mustEnd => (ev.ms = 0 /\ ev.ctc = 0 /\ ev.live = << >>)
                       /\ mustNot => (ev.ms = full.ms /\ survivors \subseteq LiveSet(ev))
      /\ Chk("C16") => TableConsistent(ev) /\ (~mustEnd /\ mustNot => LiveSet(ev) = survivors)
-     /\ Chk("C12") => HellosOK(ev.hellos, 1, lastHello)
+     /\ Chk("C12") => HellosOK(ev.hellos, 1, lastHello) /\ TickRefines(ev)
      /\ (Primary = "C14" /\ had /\ full.ms # 0 => TLCSet(2, TLCGet(2) \cup {<< "tick", mustEnd, mustNot >>}))
      /\ (Primary = "C12" /\ Len(ev.hellos) > 0 => TLCSet(2, TLCGet(2) \cup {l}))
      /\ lastHello' = LastHelloAfter(ev.hellos, lastHello)
